@@ -26,7 +26,124 @@ FLOORS = {"quick": {"view_checks": 8000, "pair_checks": 50000, "epoch2_view_chec
           "thorough": {"view_checks": 40000, "pair_checks": 250000, "epoch2_view_checks": 8000}}
 
 
+SINGLE_VIEWS = ["reshape11", "newaxis", "ellipsis", "reshape1", "atleast_2d", "expand_dims", "ravel", "broadcast_to11", "T"]
+SINGLE_CONSUMERS = ["mul_vec", "add_mat", "maximum_vec", "mul_scalar", "sum_of_view", "sub_rev", "div_mat", "where", "matmul_vec", "einsum", "square"]
+
+
+def gen_single(rng):
+    """A base holding ONE element (shape (), (1,) or (1, 1); float64/32/16) whose consumers broadcast it: the gradient contributions that reach
+    it are sum-reduced to its shape (a NumPy scalar for a 0-d base).  Views of it inside and outside the graph."""
+    nviews = rng.randint(2, 5)
+    views = [{"how": rng.choice(SINGLE_VIEWS), "of": rng.choice([-1] + list(range(i))) if rng.random() < 0.4 else -1, "ingraph": rng.random() < 0.5,
+              "before": rng.random() < 0.6} for i in range(nviews)]
+    return {"kind": "single", "shape": rng.choice([[], [], [1], [1, 1]]), "dtype": rng.choice(["float64", "float32", "float32", "float16"]),
+            "from_op": rng.random() < 0.3, "consumers": [rng.choice(SINGLE_CONSUMERS) for _ in range(rng.randint(1, 3))], "views": views,
+            "vseed": rng.randrange(1 << 30), "cseed": rng.randrange(1 << 30)}
+
+
+def run_single(case):
+    import mygrad as mg
+    REG.reset()
+    rng = np.random.default_rng(case["vseed"])
+    dt = np.dtype(case["dtype"])
+    viol, cnt, sets = [], {"view_checks": 0, "pair_checks": 0, "views_with_grad": 0, "single_cases": 1}, {}
+    leaf = mg.tensor(rng.uniform(0.5, 1.5, size=tuple(case["shape"])).astype(dt))
+    x = leaf * dt.type(1.25) if case["from_op"] else leaf
+
+    def view_of(t, how):
+        if how == "reshape11":
+            return t.reshape(1, 1)
+        if how == "newaxis":
+            return t[np.newaxis]
+        if how == "ellipsis":
+            return t[...]
+        if how == "reshape1":
+            return mg.reshape(t, (1,))
+        if how == "atleast_2d":
+            return mg.atleast_2d(t)
+        if how == "expand_dims":
+            return mg.expand_dims(t, 0)
+        if how == "ravel":
+            return mg.ravel(t)
+        if how == "broadcast_to11":
+            return mg.broadcast_to(t, (1,) * max(1, t.ndim))
+        return t.T
+
+    def consume(t, how):
+        v3, m22 = rng.uniform(0.5, 1.5, size=3).astype(dt), rng.uniform(0.5, 1.5, size=(2, 2)).astype(dt)
+        if how == "mul_vec":
+            return (t * v3).sum()
+        if how == "add_mat":
+            return (t + m22).sum()
+        if how == "maximum_vec":
+            return mg.maximum(t, v3 - dt.type(1)).sum()
+        if how == "mul_scalar":
+            return (t * dt.type(2)).sum()
+        if how == "sum_of_view":
+            return t[...].sum()
+        if how == "sub_rev":
+            return (v3[::-1] - t).sum()
+        if how == "div_mat":
+            return (m22.T / t).sum()
+        if how == "where":
+            return mg.where(v3 > 1, t, v3).sum()
+        if how == "matmul_vec":
+            return (mg.broadcast_to(t.reshape(1), (3,)) @ v3) if t.size == 1 else t.sum()
+        if how == "einsum":
+            return mg.einsum("...,i->i", t.reshape(()) if t.ndim else t, v3).sum()
+        return mg.square(t).sum()
+
+    made = []
+    def make(i):
+        v = case["views"][i]
+        # (a view taken after the backward pass is taken of the base itself: using a released *view* as an operand again starts a new epoch
+        #  for it - it lets go of its base - which the two-epoch histories cover)
+        src = x if v["of"] < 0 or v["of"] >= len(made) or made[v["of"]] is None or not v["before"] else made[v["of"]]
+        return view_of(src, v["how"])
+    for i, v in enumerate(case["views"]):
+        made.append(make(i) if v["before"] else None)
+    terms = [consume(x, how) for how in case["consumers"]]
+    for i, v in enumerate(case["views"]):
+        if v["before"] and v["ingraph"]:
+            terms.append(consume(made[i], case["consumers"][i % len(case["consumers"])]))
+    L = terms[0]
+    for t_ in terms[1:]:
+        L = L + t_
+    L.backward()
+    for i, v in enumerate(case["views"]):
+        if made[i] is None:
+            made[i] = make(i)             # a view taken after the backward pass
+    gb = x.grad
+    if gb is None:
+        viol.append({"monitor": "availability", "mech": "base-grad-missing", "msg": "the base took part in the back-propagated graph but has no gradient"})
+    else:
+        for i, v in enumerate(made):
+            if not np.shares_memory(v.data, x.data):
+                continue                  # (not a view after all)
+            cnt["view_checks"] += 1
+            how = case["views"][i]["how"]
+            gv = v.grad
+            if gv is None:
+                viol.append({"monitor": "availability", "mech": "view-grad-missing", "msg": f"view #{i} ({how}) of the one-element {case['dtype']} base {tuple(case['shape'])}: grad is None while the base's is set"})
+                continue
+            cnt["views_with_grad"] += 1
+            sets.setdefault("view_kinds", []).append(how)
+            if gv.shape != v.shape or not np.array_equal(np.ravel(gv), np.ravel(gb)):
+                viol.append({"monitor": "value", "mech": "view-grad-value", "msg": f"view #{i} ({how}).grad != the base's gradient seen through the view"})
+            elif not np.shares_memory(gv, gb):
+                viol.append({"monitor": "sharing", "mech": "view-grad-not-shared", "msg": f"view #{i} ({how}).grad does not share memory with the {case['dtype']} base's gradient (base shape {tuple(case['shape'])}, consumers {case['consumers']})"})
+    first = {}
+    for cls, i, lay, vid in REG.arrival:
+        first.setdefault(vid, (cls, lay))
+    sets["first_contribution"] = sorted({f"{c}:{l}" for c, l in first.values()})
+    sets["view_kinds"] = sorted(set(sets.get("view_kinds", [])))
+    sig = f"single:{case['shape']}:{case['dtype']}:{case['from_op']}:{case['consumers']}:{[(v['how'], v['of'], v['ingraph'], v['before']) for v in case['views']]}"
+    return {"viol": viol[:5], "counters": cnt, "sets": sets, "sig": sig, "nontrivial": cnt["views_with_grad"] >= 2}
+
+
 def gen_case(rng, cfg, idx):
+    if idx % 8 == 6:
+        return gen_single(rng)
     for _ in range(10):
         direct = idx % 8 == 5
         b, base, _ = gen_history(rng, nstmts=cfg["nstmts"], int_prob=0.0, nonconst_only=True, inplace_w=0, setshape_w=0, view_w=6, read_w=3,
@@ -85,6 +202,8 @@ def gen_case(rng, cfg, idx):
 
 
 def run_case(case):
+    if case.get("kind") == "single":
+        return run_single(case)
     prog = case["prog"]
     REG.reset()
     it = Interp("mg")
@@ -157,6 +276,25 @@ def run_case(case):
             if np.shares_memory(grads[na], grads[nb]) and not np.shares_memory(env[na].data, env[nb].data):
                 viol.append({"monitor": "alias", "mech": "grads-alias-unrelated-tensors",
                              "msg": f"{na}.grad and {nb}.grad share memory but the tensors do not"})
+    # copies own fresh memory: the gradient a copy carries (whichever it carries: what a copy of a *view* carries is not stated and not judged) shares memory with no other
+    # tensor's gradient, neither the original's nor - through it - any view's
+    import copy as _copy
+    crng = random.Random(case.get("cseed", 0))
+    for n in crng.sample(tn, min(2, len(tn))):
+        t = env[n]
+        for how, c in (("copy()", t.copy()), ("copy.copy", _copy.copy(t)), ("copy(constant=True)", t.copy(constant=True))):
+            cnt["copy_checks"] = cnt.get("copy_checks", 0) + 1
+            gc_ = c.grad
+            if np.shares_memory(c.data, t.data):
+                viol.append({"monitor": "alias", "mech": "copy-shares-data", "msg": f"{n}.{how} shares its data with {n}"})
+            elif gc_ is not None:
+                for m in tn:
+                    if np.shares_memory(gc_, grads[m]):
+                        viol.append({"monitor": "alias", "mech": "grads-alias-unrelated-tensors:copy",
+                                     "msg": f"the gradient of {n}.{how} shares memory with {m}.grad but the copy shares no memory with {m}"})
+                        break
+                cnt["copy_grads_seen"] = cnt.get("copy_grads_seen", 0) + 1
+            del c, gc_
     first = {}
     for cls, i, lay, vid in arrival:
         first.setdefault(vid, (cls, lay))
